@@ -150,7 +150,8 @@ fn one_config(cfgc: &CtxCfg, rng: &mut Rng, rep: &mut Report, trace: Option<u64>
     let n = cfgc.vendors.len();
     let m = Model::new(cfgc);
     // (1) walk, after a short random prelude
-    let pre: Vec<Op> = (0..rng.below(6)).map(|_| instantiate(pick_letter(rng, &TRAFFIC), rng, &m)).collect();
+    let npre = if rng.chance(1, 50) { 260 + rng.below(300) } else { rng.below(6) };
+    let pre: Vec<Op> = (0..npre).map(|_| instantiate(pick_letter(rng, &TRAFFIC), rng, &m)).collect();
     check_walk(cfgc, &pre, rng.next(), rep);
     // (2) every selector in random orders, interleaved with other traffic, on two contexts
     let on = 1 + rng.below(16) as usize;
@@ -178,7 +179,12 @@ fn one_config(cfgc: &CtxCfg, rng: &mut Rng, rep: &mut Report, trace: Option<u64>
         run_history(&h, Some(&letters), &OWNED, 0xC14, rep, trace.map(|t| t * 16 + o as u64));
         rep.nontrivial(hash_bytes(14, h.encode().as_bytes()));
         if rep.want_sample() && n <= 3 {
-            rep.sample(|| J::s(h.encode()));
+            rep.sample(|| {
+                J::obj(vec![
+                    ("history", J::s(h.encode())),
+                    ("format", J::s("contexts 'addr/types-hex/format.id.value+...' joined by '~', then '#', then operations '<context index><P=process|D=decode|L=get_length|A=set_eid(request half)|B=set_eid(response half)|U=set_uuid>:<hex>'; every step was judged against the model")),
+                ])
+            });
         }
     }
 }
